@@ -6,7 +6,7 @@ import subprocess
 from concurrent.futures import ThreadPoolExecutor
 
 import common
-from common import cL, cT, cZ, float_dyadic
+from common import cB, cL, cN, cT, cZ, float_dyadic
 
 PID = "C08"
 
@@ -69,7 +69,7 @@ def gen_flows(rng, tier):
     for name in ("realnvp-default", "nsf-lu-bn", "maf"):
         for pre in (["fwd"], ["inv"], ["fwd", "inv"], ["logp", "inv_z"]):
             for rs in (("reset_w", "reset_p") if tier == "quick" else ("reset_w", "reset_p", "reset_wp")):
-                if tier == "quick" and name != "realnvp-default" and (len(pre) > 1 or rs == "reset_p"):
+                if tier == "quick" and (rs == "reset_p" and pre != ["fwd"] or name != "realnvp-default" and (len(pre) > 1 or rs == "reset_p")):
                     continue
                 cfg = dict(base)
                 cfg.update(dict(variants)[name])
@@ -107,6 +107,7 @@ def gen_proposals(rng, tier):
 
 def gen_ins(rng, tier):
     out = []
+    priors = ["band", "hole", "checker", "uniform", "nan-inf", "checker"]     # excluded regions INSIDE the bounds
     for reparam in ("logit", None):
         for n_flows in ((1, 2) if tier == "quick" else (1, 2, 3)):
             # batch sizes over several orders of magnitude, around powers of two and of ten (chunked evaluation boundaries)
@@ -114,7 +115,9 @@ def gen_ins(rng, tier):
             if tier != "quick":
                 bigs += rng.sample([3, 1000, 32769, 70000, 100000, 150001], 3)
             out.append({"seed": rng.randrange(1 << 30), "flow_config": {"n_blocks": 2, "n_neurons": 8}, "reparam": reparam,
-                        "n_flows": n_flows, "n": 10, "reset_flow": rng.random() < 0.7, "n_bigs": sorted(bigs)})
+                        "n_flows": n_flows, "n": 10, "reset_flow": rng.random() < 0.7, "n_bigs": sorted(bigs),
+                        "prior": priors[len(out) % len(priors)],
+                        "draw_ns": [1, rng.choice([2, 5, 13]), rng.choice([40, 101]), rng.choice([300, 777])]})
     return out
 
 
@@ -158,21 +161,32 @@ def run(chk):
         flows = gen_flows(rng, chk.tier)
         if f64 and chk.tier == "quick":
             flows = flows[::3]
-        for k in range(0, len(flows), 10):          # shards run in parallel child processes
-            jobs.append(("flow", f64, {"float64": f64, "flow": flows[k:k + 10]}))
+        for k in range(0, len(flows), 8):           # shards run in parallel child processes
+            jobs.append(("flow", f64, {"float64": f64, "flow": flows[k:k + 8]}))
         props = gen_proposals(rng, chk.tier)
         if f64 and chk.tier == "quick":
             props = props[:2]
-        jobs.append(("proposal", f64, {"float64": f64, "proposal": props}))
+        for k in range(0, len(props), 3):
+            jobs.append(("proposal", f64, {"float64": f64, "proposal": props[k:k + 3]}))
     for c in gen_ins(rng, chk.tier):
         jobs.append(("ins", False, {"float64": False, "ins": [c]}))
     if chk.tier != "quick":
         jobs.append(("ins", True, {"float64": True, "ins": gen_ins(rng, chk.tier)[:2]}))
-    with ThreadPoolExecutor(max_workers=min(len(jobs), 10)) as ex:
-        futs = [ex.submit(chk.child, "c08_child.py", (), 1200 if chk.tier == "quick" else 3000, None, json.dumps(j))
-                for _, _, j in jobs]
-        results = [f.result() for f in futs]
-    glue, totals = [], []
+    with ThreadPoolExecutor(max_workers=min(len(jobs), 16)) as ex:
+        import time as _time
+
+        def timed(j):
+            t0 = _time.time()
+            r = chk.child("c08_child.py", (), 1200 if chk.tier == "quick" else 3000, None, json.dumps(j))
+            return r, _time.time() - t0
+
+        futs = [ex.submit(timed, j) for _, _, j in jobs]
+        timed_results = [f.result() for f in futs]
+        results = [r for r, _ in timed_results]
+        chk.notes.append("child wall times (s): " + ", ".join(f"{k}{'64' if f else '32'}x{len(j[k])}={t:.0f}"
+                                                            for (k, f, j), (_, t) in zip(jobs, timed_results)))
+        t_children = _time.time()
+    glue, totals, aligned = [], [], []
     layers_bad, n_layers = [], 0
     for (kind, f64, job), (rc, out, err) in zip(jobs, results):
         tag = f"{kind}:{'float64' if f64 else 'float32'}"
@@ -215,6 +229,16 @@ def run(chk):
                     layers_bad.append(f"{tag} {label}: rescaling {r['oracle']}")
             if max(r.get("max_abs_ld", 0.0), r.get("max_abs_lj", 0.0)) > 1e-3:
                 chk.nontriv((tag, c))
+            for al in r.get("aligned", []):
+                chk.count(f"ins:draw:prior={c.get('prior')}:{'some' if al['rejected_by_mask'] else 'no'}-point-rejected-by-the-second-mask")
+                if al["rejected_by_mask"]:
+                    chk.nontriv((tag, c.get("seed"), al["n"]))
+                if all(a >= 0 and b >= 0 for a, b in al["obs"]):
+                    aligned.append((cT(cN(al["n"]), cL(cT(cL(map(cB, m)), cL(map(cN, xs)), cL(map(cN, rs))) for m, xs, rs in al["batches"]),
+                                       cL(cT(cN(a), cN(b)) for a, b in al["obs"])), tag, label))
+                else:
+                    chk.fail("C08:draw-returned-an-unknown-point-or-row", f"{tag} {label}: draw(n={al['n']}) returned a sample or a "
+                             "log_q row that is none of the candidates / rows it computed", {"kind": kind, "float64": f64, "case": c})
             for k, p, a, b, top, what in r["glue"]:
                 if finite(a, b, top):
                     glue.append((cT(k, p, cD(a), cD(b), cD(top)), what, tag, label))
@@ -233,16 +257,22 @@ def run(chk):
     groups = {}
     for lit, what, tag, label in glue:
         groups.setdefault(what.split("(")[0], []).append((lit, tag, label))
-    for what, items in sorted(groups.items()):
-        bad, e = shard_eval(chk, "glue_" + slug(what).replace("-", "_"), hdr, "chk_glue", [i[0] for i in items])
-        chk.oblige(f"correspondence: {what} = model glue recomputed in exact dyadic arithmetic from the recorded components "
-                   f"({len(items)} values)", "correspondence", bad == [],
-                   e or "; ".join(f"{items[i][1]} {items[i][2]}: {items[i][0]}" for i in (bad or [])[:3]))
+    # all Coq evaluations run concurrently (each coqc start-up costs seconds)
+    tasks = [("glue_" + slug(what).replace("-", "_"), "chk_glue", items, 1500,
+              f"correspondence: {what} = model glue recomputed in exact dyadic arithmetic from the recorded components "
+              f"({len(items)} values)") for what, items in sorted(groups.items())]
+    tasks.append(("aligned", "chk_draw_aligned", aligned, 40,
+                  f"correspondence: ImportanceFlowProposal.draw returns (sample, log_q row) pairs = model draw_aligned on the "
+                  f"recorded batches and masks ({len(aligned)} draws)"))
+    tasks.append(("totals", "chk_total", totals, 1500,
+                  f"correspondence: CompositeTransform log-determinant = sum of the layers' ({len(totals)} values)"))
+    with ThreadPoolExecutor(max_workers=8) as ex:
+        outs = list(ex.map(lambda t: shard_eval(chk, t[0], hdr, t[1], [i[0] for i in t[2]], size=t[3]), tasks))
+    for (name, fn, items, size, title), (bad, e) in zip(tasks, outs):
+        chk.oblige(title, "correspondence", bad == [],
+                   e or "; ".join(f"{items[i][1]} {items[i][2]}: {items[i][0][:400]}" for i in (bad or [])[:3]))
         chk.traces += len(items)
-    bad, e = shard_eval(chk, "totals", hdr, "chk_total", [i[0] for i in totals])
-    chk.oblige(f"correspondence: CompositeTransform log-determinant = sum of the layers' ({len(totals)} values)",
-               "correspondence", bad == [], e or "; ".join(f"{totals[i][2]} {totals[i][3]}: {totals[i][0]}" for i in (bad or [])[:3]))
-    chk.traces += len(totals)
+    chk.notes.append(f"Coq comparison wall time (s): {_time.time() - t_children:.0f}")
     for lit, what, tag, label in glue[:: max(1, len(glue) // 5)]:
         chk.sample({"what": what, "config": f"{tag} {label}", "literal": lit})
 
